@@ -176,6 +176,32 @@ from .native import (get_harness, native_run, _jsonable, _unjson, load_contract_
                      replay_file)
 
 
+def run_task(args):
+    if args[0] == "ground":
+        return run_ground_chunk(args)
+    return run_case(args)
+
+
+def run_ground_chunk(args):
+    _, pid, name, tier, k, n, module_names = args
+    t0 = time.time()
+    out = {"ground": name, "chunk": k, "n": 0, "bad": 0, "first_bad": [], "error": None}
+    try:
+        load_contract_modules(module_names)
+        prop = api.REGISTRY.props[pid]
+        fn = [g for g in prop.ground if g[0] == name][0][1]
+        for label, ok, detail in fn(tier, k, n):
+            out["n"] += 1
+            if not ok:
+                out["bad"] += 1
+                if len(out["first_bad"]) < 50:
+                    out["first_bad"].append((label, str(detail)))
+    except Exception as e:
+        out["error"] = "crash: %s\n%s" % (e, traceback.format_exc())
+    out["wall_s"] = round(time.time() - t0, 2)
+    return out
+
+
 def run_case(args):
     """worker: explore + discharge one (harness, case); returns a plain dict"""
     pid, hname, case, tier, module_names, known_scopes = args
@@ -494,14 +520,29 @@ def run_property(pid, module_names, tier="quick", jobs=None, only=None):
             tasks.append((pid, h.name, case, tier, module_names, known_scopes))
     jobs = jobs or min(16, os.cpu_count() or 4)
     results = []
+    chunked = {}
+    for name, fn, opts in prop.ground:
+        if only and only not in name:
+            continue
+        if opts.get("tier") == "thorough" and tier != "thorough":
+            continue
+        nch = opts.get("chunks")
+        if nch:
+            chunked[name] = []
+            for k in range(nch):
+                tasks.append(("ground", pid, name, tier, k, nch, module_names))
     if tasks:
         ctxm = mp.get_context("fork")
         with ctxm.Pool(min(jobs, len(tasks))) as pool:
-            for r in pool.imap_unordered(run_case, tasks, chunksize=1):
-                results.append(r)
+            for r in pool.imap_unordered(run_task, tasks, chunksize=1):
+                if "ground" in r:
+                    chunked[r["ground"]].append(r)
+                else:
+                    results.append(r)
     results.sort(key=lambda r: r.get("name", r["harness"]))
 
     violations, undecided, crashes, known_lines = [], [], [], []
+    more_refuted = {}
     n_obl = n_dis = 0
     backends = {}
     solver_s = 0.0
@@ -545,6 +586,9 @@ def run_property(pid, module_names, tier="quick", jobs=None, only=None):
                     undecided.append("%s: undecided outside the known-finding scope" % full)
                     continue
                 confirmed = v.get("native") == "violated"
+                if any(x[0] == full for x in violations):
+                    more_refuted[full] = more_refuted.get(full, 0) + 1
+                    continue
                 rp = write_replay(pid, module_names, r["harness"], r["case"], v["vc"], v.get("inputs", {}),
                                   name=name, solver_out={"verdict": v["verdict"], "backend": v["backend"], "model": v.get("smt_model", ""),
                                    "native": v.get("native"), "native_detail": v.get("native_detail")},
@@ -564,16 +608,28 @@ def run_property(pid, module_names, tier="quick", jobs=None, only=None):
         tg = time.time()
         n = bad = 0
         first_bad = []
-        try:
-            for label, ok, detail in fn(tier):
-                n += 1
-                if not ok:
-                    bad += 1
-                    if len(first_bad) < 50:
-                        first_bad.append((label, detail))
-        except Exception as e:
-            crashes.append("ground %s crashed: %s\n%s" % (name, e, traceback.format_exc()))
-            continue
+        if name in chunked:
+            errs = [c["error"] for c in chunked[name] if c["error"]]
+            if errs:
+                crashes.append("ground %s crashed: %s" % (name, errs[0]))
+                continue
+            for c in sorted(chunked[name], key=lambda c: c["chunk"]):
+                n += c["n"]
+                bad += c["bad"]
+                first_bad.extend(c["first_bad"])
+            first_bad = first_bad[:50]
+            tg -= max([c["wall_s"] for c in chunked[name]] or [0])
+        else:
+            try:
+                for label, ok, detail in fn(tier):
+                    n += 1
+                    if not ok:
+                        bad += 1
+                        if len(first_bad) < 50:
+                            first_bad.append((label, detail))
+            except Exception as e:
+                crashes.append("ground %s crashed: %s\n%s" % (name, e, traceback.format_exc()))
+                continue
         n_obl += n
         n_dis += n - bad
         backends["ground"] = backends.get("ground", 0) + (n - bad)
@@ -666,7 +722,9 @@ def run_property(pid, module_names, tier="quick", jobs=None, only=None):
         return 3
     if violations:
         for full, rp, confirmed, v in violations:
-            print("  refuted obligation: %s  inputs=%s  native=%s" % (full, v.get("inputs"), v.get("native_detail")))
+            print("  refuted obligation: %s  inputs=%s  native=%s%s" % (
+                full, v.get("inputs"), v.get("native_detail"),
+                ("  (+%d more paths of this obligation refuted)" % more_refuted[full]) if full in more_refuted else ""))
             print("VIOLATION property=%s replay=%s%s" % (pid, rp, "" if confirmed else " no-failing-input-found"))
         return 1
     if undecided:
